@@ -40,6 +40,12 @@ GMethods == {"Query", "Idem", "Plain"}
 GForms == {"connect_get", "connect_post", "grpc", "rest"}
 GCodecSeqs == {<<"proto">>, <<"json">>, <<"text">>, <<"proto", "json">>}
 
+\* a custom compression whose decompressor reports corruption only when it is closed
+ZzCompSeqs == {<<"zz">>}
+ZzComps == {"zz"}
+ZMethods == {"Post", "CStream"}
+OneCodecs == {"proto"}
+
 \* ---- thorough tier domains
 TProtoSets == QProtoSets \cup {<<"grpc", "rest">>, <<"grpcweb", "rest">>, <<"connect", "rest">>, <<"grpc", "grpcweb">>,
                                <<"connect", "grpc", "grpcweb", "rest">>}
